@@ -814,7 +814,35 @@ def rules():
                  r11_balance,
                  "induction over the tree: balanced children texts + balanced own literals on every decision-consistent "
                  "path = balanced translation; (), {}, [], <>, double quotes"),
+        RuleSpec("C12-R12", "the lists of a declaration are rendered independently of each other (no elif chain over two lists)", 40,
+                 r12_collections_independent),
     ]
+
+
+def r12_collections_independent(repo):
+    """The program's lists (superclasses, interfaces, fields, functions, type parameters, arguments) are rendered with
+    `<sep>.join(<list>)`.  Whether one list is printed must not depend on another list being empty: an `elif` chain over
+    two different lists drops the second whenever the first is non-empty (a Java class with a superclass *and* interfaces
+    loses its `implements` clause).  Decided on the guards of every join site: no negative truthiness test of another
+    list that the same method also joins."""
+    obs = []
+    for lang in LANGS:
+        m = repo.module("src.translators." + lang)
+        for q, f in sorted(repo.functions.items()):
+            if f.module is not m:
+                continue
+            joins = [n for n in ast.walk(f.node) if isinstance(n, ast.Call) and isinstance(n.func, ast.Attribute) and
+                     n.func.attr == "join" and n.args and isinstance(n.args[0], ast.Name)]
+            names = {j.args[0].id for j in joins}
+            for j in joins:
+                x = j.args[0].id
+                bad = [t.id for t, p in flat_guards(j) if isinstance(t, ast.Name) and t.id in names and t.id != x and not p]
+                obs.append(Ob("C12-R12", "%s:%s:join(%s)@%d:independent-of-other-lists" % (
+                    lang, f.name, x, sum(1 for o in obs if o.key.startswith("%s:%s:join(%s)" % (lang, f.name, x)))),
+                    _w(f, j), not bad,
+                    "`%s` is printed only when %s is empty: the lists of a declaration are rendered independently of each "
+                    "other" % (src(j)[:60], sorted(set(bad)))))
+    return obs
 
 
 def r11_balance(repo):
